@@ -82,7 +82,7 @@ Section Coercion.
   Proof. destruct v; destruct t; reflexivity. Qed.
 
   Lemma scalar_accepts_eq k v : scalar_accepts k v = spec_scalar_accepts k v.
-  Proof. destruct k as [| | | | |[ks|]]; destruct v; reflexivity. Qed.
+  Proof. destruct k as [| | | | |[ks|]|acc rp]; destruct v; reflexivity. Qed.
 
   (** ** input types *)
   Definition input_sty (t : sty) : Prop :=
@@ -421,17 +421,17 @@ Section ValuesRule.
     induction v using value_ind'; intros sc e dd t;
       try (induction t as [tn | t' IHt | t' IHt]; intros allow; rewrite !coercion_unfold; cbn [ti_value_in set_ann is_var is_null v_pos];
            try reflexivity; try apply IHt; try (destruct allow; [apply IHt | reflexivity]);
-           destruct (raw_body S tn) as [[[| | | | |[ks|]] | vals | defs | | |]|]; reflexivity).
+           destruct (raw_body S tn) as [[[| | | | |[ks|]|acc rp] | vals | defs | | |]|]; reflexivity).
     - (* list *)
       induction t as [tn | t' IHt | t' IHt]; intros allow;
         rewrite (coercion_unfold _ _ (ti_value_in qo S sc e dd _)), (coercion_unfold _ _ (VList _ _ _)); cbn [ti_value_in is_var is_null v_pos].
-      + destruct (raw_body S tn) as [[[| | | | |[ks|]] | vals | defs | | |]|]; reflexivity.
+      + destruct (raw_body S tn) as [[[| | | | |[ks|]|acc rp] | vals | defs | | |]|]; reflexivity.
       + apply items_loop_ext. eapply Forall_impl; [| exact H]. intros x Hx t0 a0. apply Hx.
       + apply IHt.
     - (* object *)
       induction t as [tn | t' IHt | t' IHt]; intros allow;
         rewrite (coercion_unfold _ _ (ti_value_in qo S sc e dd _)), (coercion_unfold _ _ (VObject _ _ _)); cbn [ti_value_in is_var is_null v_pos].
-      + destruct (raw_body S tn) as [[[| | | | |[ks|]] | vals | defs | | |]|]; try reflexivity.
+      + destruct (raw_body S tn) as [[[| | | | |[ks|]|acc rp] | vals | defs | | |]|]; try reflexivity.
         apply fields_loop_ext. rewrite Forall_forall in *. intros [[n np] x] Hf.
         destruct (match object_fields qo S e with Some l => assoc n l | None => None end); simpl; (split; [reflexivity |]);
           intros t0 a0; apply (H _ Hf).
